@@ -38,8 +38,9 @@ fn validate_method(ctx: &Context, input: &DeriveInput) -> TokenStream {
             if !ctx.c_like_enum.unwrap() {
                 let tag_type = ctx.idents.tag.as_ref().unwrap();
                 let validate_tag = quote! {
-                    <#tag_type>::validate_unchecked(__flatty_bytes)?;
-                    <#tag_type>::from_bytes_unchecked(__flatty_bytes)
+                    // Trait paths: inherent functions of the (nameable) tag helper with these names must not take over.
+                    <#tag_type as ::flatty::traits::FlatValidate>::validate_unchecked(__flatty_bytes)?;
+                    <#tag_type as ::flatty::traits::FlatUnsized>::from_bytes_unchecked(__flatty_bytes)
                 };
                 // `DATA_MIN_SIZES` is indexed by the position of the variant, which is not the tag value
                 // when discriminants are given explicitly.
